@@ -42,7 +42,8 @@ RULE = ("cases = (a) module lists (the names ssh.connect packages plus extra and
         "(f) whole session starts (real connect -> transport -> real assembler -> main's arguments bound by the real "
         "server.main signature) where every option takes every falsy value (False, 0, None, '', []) and all-falsy sets, "
         "over the posix socket transport and the win32 pipe transport (real SocketRWShim threads, child stdin accepting "
-        "1 / 1000 / 4096 bytes per write, whole writes as control); "
+        "1 / 1000 / 4096 bytes per write, whole writes as control); several sessions opened by one process (the same "
+        "options twice, different options, both transports), each upload decoded on its own; "
         "non-trivial = a read crossed a segment boundary, an error branch was taken, or a trace was decided; "
         "distinct = distinct canonical model input")
 MANIFEST = dict(
@@ -613,22 +614,40 @@ def e2e_oracle(case, obs):
     return out
 
 
+_PACKAGED = {}
+
+
 def packaged_names():
-    """names and order ssh.connect packages: the `empackage(z, '<name>'…)` calls of `content2`, read
-    from the source (the upload itself may be unparseable when the packaging is broken)"""
-    import ast
-    with open(os.path.join(common.REPO, 'sshuttle', 'ssh.py'), 'rb') as f:
-        tree = ast.parse(f.read())
-    out = []
-    for fn in ast.walk(tree):
-        if isinstance(fn, ast.FunctionDef) and fn.name == 'connect':
-            for n in ast.walk(fn):
-                if isinstance(n, ast.Assign) and isinstance(n.targets[0], ast.Name) and n.targets[0].id == 'content2':
-                    cs = [c for c in ast.walk(n.value) if isinstance(c, ast.Call) and
-                          isinstance(c.func, ast.Name) and c.func.id == 'empackage']
-                    cs.sort(key=lambda c: (c.lineno, c.col_offset))
-                    out = [ast.literal_eval(c.args[1]) for c in cs]
-    return out
+    """Names and order the real ssh.connect packages: observed by letting one real connect run with
+    `ssh.empackage` wrapped by a recorder that calls the real one (so it does not matter in which
+    function the packaging code lives); from the source text of ssh.py as a fallback."""
+    if common.REPO in _PACKAGED:
+        return list(_PACKAGED[common.REPO])
+    ssh = _mods()[0]
+    seen = []
+    real = ssh.empackage
+
+    def recorder(z, name, *a, **k):
+        seen.append(name)
+        return real(z, name, *a, **k)
+    ssh.empackage = recorder
+    try:
+        try:
+            run_connect(dict(files={}, options=[('latency_control', True)]), None)
+        except Exception:  # noqa
+            pass
+    finally:
+        ssh.empackage = real
+    if not seen:
+        import ast
+        with open(os.path.join(common.REPO, 'sshuttle', 'ssh.py'), 'rb') as f:
+            tree = ast.parse(f.read())
+        cs = [c for c in ast.walk(tree) if isinstance(c, ast.Call) and isinstance(c.func, ast.Name) and
+              c.func.id == 'empackage' and len(c.args) > 1 and isinstance(c.args[1], ast.Constant)]
+        cs.sort(key=lambda c: (c.lineno, c.col_offset))
+        seen = [c.args[1].value for c in cs]
+    _PACKAGED[common.REPO] = list(seen)
+    return list(seen)
 
 
 def e2e_case(ctx, rng, scratch, names, keys, thorough_big=False):
@@ -647,7 +666,7 @@ def e2e_case(ctx, rng, scratch, names, keys, thorough_big=False):
         extra.append('c18pre.child')
     order = list(names)
     for e in extra:
-        order.insert(rng.randrange(1, len(order) + 1) if not e.endswith('.deep') and not e.startswith('c18pre')
+        order.insert(rng.randrange(1, max(2, len(order) + 1)) if not e.endswith('.deep') and not e.startswith('c18pre')
                      else len(order), e)
     if 'sshuttle.sub.deep' in order:       # parent first
         order.remove('sshuttle.sub.deep')
@@ -1483,8 +1502,54 @@ def session_case(ctx, case, scratch, log, seen):
                            'server.main parameter list' % case['transport'], kind='input')
 
 
+def sessions_problems(cases, scratch):
+    """several sessions opened one after the other by the same process; each upload is decoded on its own by
+    a fresh remote interpreter -> [(index, key, expected, observed)]"""
+    out = []
+    for i, c in enumerate(cases):
+        obs, r = run_session(c, scratch)
+        for key, exp, ob in session_problems(c, obs, r):
+            out.append((i, key, exp, ob))
+    return out
+
+
+def sessions_case(ctx, cases, scratch, seen):
+    ctx.count(len(cases))
+    ctx.hist('sessions-in-one-process:%d' % len(cases))
+    ctx.mark(('sessions', [session_case_json(c) for c in cases]))
+    for i, key, exp, ob in sessions_problems(cases, scratch):
+        key = key + ':later-session' if i > 0 else key
+        if key in seen:
+            continue
+        seen.add(key)
+        ctx.violation(key, case=dict(stream='sessions', sessions=[session_case_json(c) for c in cases]),
+                      expected=exp, observed='session #%d of %d opened by this process: %s' % (i + 1, len(cases), ob),
+                      note='the real ssh.connect called several times in one process; every upload decoded on its own by the '
+                           'real bootstrap/assembler', kind='ops')
+
+
 def session_cases(ctx, rng, scratch, names, okeys, logs):
     seen = set()
+
+    def tiny():
+        files = {'sshuttle.server': SERVER_STANDIN}
+        for n in names:
+            if n not in ('sshuttle.cmdline_options', 'sshuttle.server'):
+                files[n] = gen_source(rng, rng.choice(['small-py', 'mixed', 'crlf', 'one']), False)
+        return files
+
+    def one(opts, transport='posix', files=None):
+        return dict(files=files if files is not None else tiny(), options=opts, transport=transport, limit=None,
+                    policy='all', bufsize=8192, size_seed=0)
+    # the same session twice, two different sessions, three sessions over both transports, real sources twice
+    for _ in range(ctx.scale(2, 10)):
+        a, b = distinct_options(rng, okeys), distinct_options(rng, okeys)
+        fa = tiny()
+        sessions_case(ctx, [one(a, files=fa), one(a, files=fa)], scratch, seen)
+        sessions_case(ctx, [one(a), one(b)], scratch, seen)
+        sessions_case(ctx, [one(a, 'win32'), one(b), one(a)], scratch, seen)
+    sessions_case(ctx, [one(distinct_options(rng, okeys), files={'sshuttle.server': SERVER_STANDIN}) for _ in range(2)],
+                  scratch, seen)
 
     def files_for(small):
         files = {'sshuttle.server': SERVER_STANDIN}
@@ -1859,11 +1924,18 @@ def replay(ctx, rep):
             c = case_unjson(case)
             res = e2e_oracle(c, run_e2e(c, scratch))
             return bool(res), '; '.join('%s expected %s observed %s' % r for r in res)[:400] or 'remote modules equal the client files'
+        if st == 'sessions':
+            cs = [dict(c, files={n: common.unhex(d) for n, d in c['files'].items()}, options=[tuple(o) for o in c['options']])
+                  for c in case['sessions']]
+            res = sessions_problems(cs, scratch)
+            return bool(res), '; '.join('session #%d: %s: %s' % (i + 1, k, str(o)[:140]) for i, k, _e, o in res) or \
+                'every one of the %d uploads decodes to the client files and options' % len(cs)
         if st == 'connect':
             c = dict(files={n: common.unhex(d) for n, d in case['files'].items()}, options=[tuple(o) for o in case['options']])
-            lg = Log('connect')
-            connect_check(ctx, c, run_connect(c, scratch), lg)
-            return bool(ctx.violations), '; '.join(v['key'] for v in ctx.violations) or 'upload equals the client files and options'
+            for _again in range(2):        # first connect of this process, then a later one
+                lg = Log('connect')
+                connect_check(ctx, c, run_connect(c, scratch), lg)
+            return bool(ctx.violations), '; '.join(sorted({v['key'] for v in ctx.violations})) or 'upload equals the client files and options'
         if st == 'main':
             ev, outcome, got = run_main(case, scratch)
             lg = Log('main')
@@ -1871,8 +1943,7 @@ def replay(ctx, rep):
             return bool(ctx.violations), 'trace: %s' % lg.outs[0][:300]
         if st == 'session':
             c = dict(case, files={n: common.unhex(d) for n, d in case['files'].items()}, options=[tuple(o) for o in case['options']])
-            obs, r = run_session(c, scratch)
-            res = session_problems(c, obs, r)
+            res = [(k, e, o) for _i, k, e, o in sessions_problems([c, c], scratch)]
             return bool(res), '; '.join('%s: %s' % (k, str(o)[:160]) for k, _e, o in res) or \
                 'the modules compiled remotely equal the client files and server.main is entered with the client\'s values'
         if st == 'binding':
